@@ -335,7 +335,7 @@ func syntheticGrids() []*Grid {
 		d      int
 		cell   float64
 		ox, oy float64
-	}{{0, 16, 0, 0}, {1, 8, 0, 0}, {2, 16, 0, 0}, {3, 16, 0, 0}, {1, 16, -16, -16}, {2, 8, 32, 32}, {3, 8, -64, -64}, {4, 16, 0, 0}} {
+	}{{0, 16, 0, 0}, {1, 8, 0, 0}, {2, 16, 0, 0}, {3, 16, 0, 0}, {1, 16, -16, -16}, {2, 8, 32, 32}, {3, 8, -64, -64}, {4, 16, 0, 0}, {2, 8, 32, -48}, {1, 16, -16, 64}} {
 		g, err := newSyntheticGrid(spec.d, spec.cell, spec.ox, spec.oy)
 		if err != nil {
 			panic(err)
